@@ -142,6 +142,31 @@ def check_all(ctx, cls):
         constructed = any(e.kind == "marker" and e.data.get("name") == "init-done" for e in p.events)
         if p.outcome == "raise" and p.exc.func is not None and p.exc.func.name != "__init__" and constructed:
             ctx.violation("C17 SCENARIO", "raises", p.exc.func.loc(p.exc.node), "fit/predict raises for a valid configuration", found=p.exc.exc_name)
+    # the constructor rejects lower > upper only: a raise during construction whose path facts are all consistent with
+    # stat_lower == stat_upper rejects a configuration the property quantifies over ("all bounds lower <= upper")
+    from ..nf import subst as _subst
+
+    lo_a, hi_a = single_atom(sym("stat_lower")), single_atom(sym("stat_upper"))
+    for p in paths:
+        constructed = any(e.kind == "marker" and e.data.get("name") == "init-done" for e in p.events)
+        if p.outcome != "raise" or constructed:
+            continue
+        decided, consistent = 0, True
+        for c, v in p.facts:
+            if c.t[0] != "cmp":
+                continue
+            ats = atoms_of(c.t[2])
+            if not (lo_a.key in ats or hi_a.key in ats):
+                continue
+            d = _subst(c.t[2], {hi_a.key: sym("stat_lower")}).as_const()
+            if d is None:
+                continue
+            decided += 1
+            holds = {"<0": d < 0, "<=0": d <= 0, "==0": d == 0, "!=0": d != 0}[c.t[1]]
+            if holds != v:
+                consistent = False
+        if decided and consistent:
+            ctx.violation("C17 SCENARIO", "rejects-equal-bounds", p.exc.func.loc(p.exc.node) if p.exc.func is not None else cls.module.relpath, "the constructor raises on a path that stat_lower == stat_upper takes: equal bounds are a valid configuration (flag every segment whose statistic differs from the one value)", found=[f"{c!r}={v}" for c, v in p.facts if c.t[0] == "cmp"][:3], expected="raise only if stat_lower > stat_upper")
     # ---------------------------------------------------------- CLONE-DISCIPLINE
     rule = "C17.a CLONE-DISCIPLINE"
     p = good[0]
